@@ -267,6 +267,33 @@ func Main(args []string) {
 		obs.CaseInputs = append(obs.CaseInputs, map[string]any{"stream": "fanout", "calls": task.MaximumTaskCall})
 		obs.Count("stream:fanout")
 	}
+	if o.Extra["prompts"] != "" && o.Replay == "" {
+		// a task with a LIST of prompts: every prompt must be confirmed before any command runs
+		// (the machine has one prompt guard per task; the list is judged here on the real Executor)
+		type sc struct {
+			n       int
+			answers []string
+			dep     bool
+			ran     bool
+			ok      bool
+		}
+		for _, c := range []sc{{2, []string{"y", "y"}, false, true, true}, {2, []string{"y", "n"}, false, false, false},
+			{3, []string{"yes", "y", "n"}, false, false, false}, {3, []string{"y", "y", "y"}, true, true, true},
+			{2, []string{"y", "n"}, true, false, false}, {2, []string{"n"}, false, false, false}, {1, []string{"y"}, false, true, true}} {
+			obs.Cases++
+			ran, res, err := PromptList(c.n, c.answers, c.dep)
+			idx := len(obs.CaseInputs)
+			obs.CaseInputs = append(obs.CaseInputs, map[string]any{"stream": "prompts", "prompts": c.n, "answers": c.answers, "as_dep": c.dep})
+			obs.Count("stream:prompts")
+			if err != nil {
+				obs.ImplFails = append(obs.ImplFails, common.ImplFail{Case: idx, Kind: "harness", Msg: err.Error()})
+			} else if ran != c.ran || (res == "ROk") != c.ok || (!c.ok && res != "(RErr (ECode 205))") {
+				obs.ImplFails = append(obs.ImplFails, common.ImplFail{Case: idx, Kind: "prompt-list-not-enforced",
+					Msg: fmt.Sprintf("%d prompts answered %v (as dep: %v): commands ran=%v result=%s; expected ran=%v, %s", c.n, c.answers, c.dep, ran, res, c.ran,
+						map[bool]string{true: "success", false: "error 205"}[c.ok])})
+			}
+		}
+	}
 	obs.Cases += len(cases)
 	fmt.Fprintf(&sb, "Definition cases : list ecase := %s.\n", cg.List(items))
 	names := []string{"C01", "calls", "waits", "C02", "C03", "C03s", "C06", "C07", "C13", "C14", "eager"}
